@@ -91,6 +91,7 @@ def sortedRanged (names : List Name) : Option Bytes :=
   match sortHL (names.foldl pushHost []) with
   | .ok hl => some (ofChars (rangedString hl))
   | .abort => none
+  | .fuel => none      -- modelling artefact (iteration bound of the sort mirror exhausted, never observed): treated like the assert
 
 def crlf : Bytes := [13, 10]
 def prompt : Bytes := bstr "powerman> "
@@ -307,6 +308,7 @@ def deviceReply (w : W) (arg : Option Bytes) : Option Bytes :=
         let nodes := d.plugs.filterMap fun p => p.node.map toChars
         match sortHL (nodes.foldl pushHost []) with
         | .abort => none
+        | .fuel => none      -- modelling artefact, treated like the assert (see `sortedRanged`)
         | .ok hl =>
           some (bytes ++ bstr "304 " ++ nd.1 ++ bstr ": state=" ++ bstr (if d.conn == 2 then "connected" else if d.conn == 1 then "connecting" else "disconnected") ++
             bstr " reconnects=" ++ d33 (d.statConnects - 1) ++ bstr " actions=" ++ d33 d.statActions ++ bstr " type=" ++ ((w.specs.lookup nd.1).getD []) ++
@@ -322,6 +324,7 @@ def parseLine (w : W) (c : Cli) (line : Bytes) : W × Cli :=
     -- `hostlist_sort(conf_getnodes())`: the configured list itself is sorted, and stays so
     match sortHL w.cfg.nodes with
     | .abort => ({ w with exited := true }, c)
+    | .fuel => ({ w with exited := true }, c)      -- modelling artefact, treated like the assert (see `sortedRanged`)
     | .ok hl =>
       let body := if c.exprange then (expand hl).flatMap fun n => bstr "307 " ++ ofChars n ++ crlf
                   else bstr "306 " ++ ofChars (rangedString hl) ++ crlf
